@@ -248,7 +248,7 @@ theorem ValidKey.name_ok {k : Key} (h : ValidKey k) : ∀ s, k.name = some s →
   intro s hs
   have := h.1
   simp only [Key.valid, hs, Bool.and_eq_true] at this
-  exact this.2
+  exact this.1.2
 
 theorem key_roundtrip (k : Key) (hk : ValidKey k) :
     Key.deserialize k.serialize = .ok k ∧ Key.deserialize (strip k.serialize) = .ok k := by
